@@ -93,6 +93,10 @@ class Case:
         k, s, p, d = (tuple(sp[q]) for q in ("k", "s", "p", "d"))
         # the documented int form of the geometry arguments (square geometries only); the references keep the tuples
         A = (lambda t: int(t[0])) if sp.get("argform") == "int" else (lambda t: t)
+        if sp.get("argform") == "npint":     # NumPy integers (what shape arithmetic on arrays produces), signed and unsigned
+            A = lambda t: np.uint8(t[0])     # noqa: E731
+        elif sp.get("argform") == "nptuple":
+            A = lambda t: tuple(np.int64(v) for v in t)     # noqa: E731
         kk, ss, pp, dd = A(k), A(s), A(p), A(d)
         out = E.Outcome()
         x = env.arr(self.prefix.replace(":", "_") + "x", (N, C, H, W))
@@ -191,6 +195,9 @@ def enumerate_specs(tier):
         specs.append({"N": 1 + idx % 2, "C": 1 + (idx // 2) % 2, "H": hw[0], "W": hw[1], "k": list(k), "s": list(s), "p": list(p),
                       "d": list(d), "argform": "int"})
     specs.append({"N": 1, "C": 2, "H": 3, "W": 4, "k": [2, 2], "s": [1, 1], "p": [0, 0], "d": [1, 1], "argform": "int", "defaults": True})
+    specs.append({"N": 1, "C": 1, "H": 3, "W": 3, "k": [2, 2], "s": [1, 1], "p": [1, 1], "d": [1, 1], "argform": "npint"})
+    specs.append({"N": 1, "C": 1, "H": 3, "W": 4, "k": [2, 2], "s": [2, 2], "p": [0, 0], "d": [1, 1], "argform": "npint"})
+    specs.append({"N": 1, "C": 1, "H": 3, "W": 4, "k": [2, 1], "s": [1, 2], "p": [1, 0], "d": [1, 1], "argform": "nptuple"})
     specs.append({"N": 2, "C": 1, "H": 3, "W": 3, "k": [2, 3], "s": [1, 1], "p": [0, 0], "d": [1, 1], "defaults": True})
     return specs
 
